@@ -12,7 +12,7 @@ RULE = ('eid stage as in C07 (implementation vs extracted model). Oracle 1: an i
         'from the ancestor path of a uniquely numbered provision; its eId must not change. non-trivial = >= 2 identified elements; '
         'distinct by input.')
 TRUSTED_BASE = C07.TRUSTED_BASE
-ASSUMPTIONS = C07.ASSUMPTIONS + ['"uniquely numbered" is read from the ids in the output: a provision is uniquely numbered along its path when no earlier id (document order) is built on the candidate of any identified element of the path (path_first); that this follows from "no earlier element has the same name and number in the same scope" needs the unique decomposition of ids at underscores and is decided by oracle 2']
+ASSUMPTIONS = C07.ASSUMPTIONS + ['"uniquely numbered along the path" (path_unique): every identified element on the path has a num and no EARLIER identified element was handed the same prefix, has the same abbreviation and the same number part; element names hold no underscore (true of all Akoma Ntoso names; checked on the generator tables)']
 
 def _tree_oracle(args):
     prefix, tree = args
@@ -198,7 +198,9 @@ LEVEL_TEXT = ('Proof over the Gallina model, for every tree, prefix and generato
               'alone (C08_subtree_ids_local); below every identified element every id extends that element\'s id by "__..." (C08_ids_nest); clashes are suffixed in document order: '
               'in the output of a run a numbered element carries its bare candidate unless an EARLIER id is built on that candidate (C08_clash_suffix_in_document_order), hence a provision '
               'uniquely numbered along its ancestor path has the id spelled by the names and numbers along the path (C08_path_determined) and two documents, however different, '
-              'give it the same id (C08_stable_under_edit; instances of the first-asker rule are checked on every generated tree and document). The exact '
+              'give it the same id (C08_stable_under_edit; instances of the first-asker rule are checked on every generated tree and document); ids decompose uniquely at underscores '
+              '(C08_id_has_one_base, C08_candidate_determines_its_parts), so "uniquely numbered" can be spelled in names and numbers alone - no earlier element with the same handed-down prefix, '
+              'abbreviation and number part - and still determines the id (C08_unique_numbering_determines_id, C08_unique_numbering_stable). The exact '
               'counter values are tied by the eid stage, the reference-computation oracle and the edit-pair search on the implementation.')
 LEVEL_NOTE = 'Trusted base as C07. Partial: see ASSUMPTIONS in evidence; the exact suffix/counter values are tied by the eid stage only.'
 TECHNIQUE = 'Rocq proof (induction over trees / ancestor paths) + differential run + reference-computation and edit-pair oracles'
